@@ -72,4 +72,10 @@ Fixpoint bset (k : cell) (v : Z) (m : balances) : balances :=
   | (k', v') :: m' => if cell_eqb k k' then (k, v) :: m' else (k', v') :: bset k v m'
   end.
 
+(* Sender / Receiver of reconciler.go: a name and an amount *)
+Definition entry := (string * Z)%type.
+
+(* Posting of reconciler.go *)
+Record posting := mkposting { psrc : string; pdst : string; pamt : Z; passet : string }.
+
 Definition zsum (xs : list Z) : Z := fold_right Z.add 0 xs.
